@@ -184,7 +184,11 @@ def _set_config(ctx, prog):
                "set: a key is only written if it already exists in the "
                "config" if ok else
                f"set: config[{fmt(k)}] is written without a membership test "
-               f"— unknown parameters can be added", key="C18.1:membership")
+               f"— unknown parameters can be added", key="C18.1:membership",
+               # (a key handed out by a generator / helper that is not
+               # read may have been tested there)
+               evidence=not any(x.op == "unknown" or "generator" in fmt(x)[:40]
+                                for x in k.walk()))
     # a parameter named without value tokens: booleans toggle, others stay
     tog = [e for e in stores if not any(
         is_call_to(x, MC + "finalize_values") for x in e.data["value"].walk())]
@@ -611,7 +615,8 @@ def _finalize_bool_shapes(ctx, f, r, rets, cfgk):
            "boolean parameters stay boolean: explicit true/false or toggle"
            if ok else f"boolean branch can return "
                       f"{[fmt(v) for v in rets]}",
-           key="C18.2:bool", returns=[fmt(v) for v in rets])
+           key="C18.2:bool", returns=[fmt(v) for v in rets],
+           evidence=not any(_opaque_result(v) for v in rets))
     # ... and the explicit words map to their own value: decision table of
     # the boolean branch over the atoms token == 'false' / token == 'true'
     live_rets = [(v, l) for v, l in r.returns if not tm.is_const(l, False)]
@@ -671,6 +676,15 @@ def _finalize_bool_shapes(ctx, f, r, rets, cfgk):
                f"not current", key="C18.2:bool-words")
 
 
+def _opaque_result(v: T) -> bool:
+    """the returned value is the result of a call this analysis cannot read
+    (a function taken from a registry, `next(...)` over a table filled at
+    import time): no evidence about what comes back"""
+    return any(x.op == "call" and (
+        x.args[0].op in ("call", "sub", "elem", "loopvar", "loopout", "ite")
+        or tm.callee_name(x) == "builtins.next") for x in v.walk())
+
+
 def _finalize_rest(ctx, f, run, vals):
     r = run(False, True)
     rets = [v for v, l in r.returns if not tm.is_const(l, False)]
@@ -680,14 +694,16 @@ def _finalize_rest(ctx, f, run, vals):
     ctx.ob("C18.2", f, ok,
            "list parameters stay lists" if ok else
            f"list branch can return {[fmt(v) for v in rets]}",
-           key="C18.2:list", returns=[fmt(v) for v in rets])
+           key="C18.2:list", returns=[fmt(v) for v in rets],
+           evidence=not any(_opaque_result(v) for v in rets))
     r = run(False, False)
     rets = [v for v, l in r.returns if not tm.is_const(l, False)]
     ok = bool(rets) and all(v is tm.sub(vals, const(0)) for v in rets)
     ctx.ob("C18.2", f, ok,
            "scalar parameters get exactly one token" if ok else
            f"scalar branch can return {[fmt(v) for v in rets]}",
-           key="C18.2:scalar", returns=[fmt(v) for v in rets])
+           key="C18.2:scalar", returns=[fmt(v) for v in rets],
+           evidence=not any(_opaque_result(v) for v in rets))
 
 
 def _reset(ctx, prog):
